@@ -39,7 +39,7 @@ type HSPath struct {
 	OnlyKind string `json:"only_kind,omitempty"`
 }
 
-var hsPaths = []string{"direct-ws", "direct-wss", "http-proxy", "https-proxy", "socks5", "upgrade"}
+var hsPaths = []string{"direct-ws", "direct-wss", "direct-wss-tlshook", "direct-ws-netdial", "http-proxy", "https-proxy", "https-proxy-tlshook", "socks5", "upgrade"}
 
 func genHSPath(t *rapid.T) HSPath {
 	var c HSPath
@@ -76,6 +76,14 @@ func (c HSPath) peerSpec() (PeerSpec, bool, *url.URL) {
 	case "direct-wss":
 		secure = true
 		spec.BackendTLS = true
+	case "direct-wss-tlshook":
+		// NetDialTLSContext is trusted to have done TLS: the peer speaks plain
+		secure = true
+	case "https-proxy-tlshook":
+		spec.ProxyKind = "https"
+		proxyURL, _ = url.Parse("https://proxy.test")
+		secure = c.Secure
+		spec.BackendTLS = c.Secure
 	case "http-proxy":
 		spec.ProxyKind = "http"
 		proxyURL, _ = url.Parse("http://user:pw@proxy.test:3128")
@@ -112,12 +120,20 @@ func dialPath(c HSPath, fault *xport.PFault) *dialOutcome {
 	spec, secure, proxyURL := c.peerSpec()
 	out := &dialOutcome{}
 	d := websocket.Dialer{TLSClientConfig: &tls.Config{RootCAs: getPKI().pool}}
-	d.NetDialContext = func(ctx context.Context, network, addr string) (net.Conn, error) {
+	hook := func(ctx context.Context, network, addr string) (net.Conn, error) {
 		out.dialled++
 		end, log := startPeer(spec)
 		end.Fault = fault
 		out.end, out.log = end, log
 		return end, nil
+	}
+	switch c.Path {
+	case "direct-wss-tlshook", "https-proxy-tlshook":
+		d.NetDialTLSContext = hook
+	case "direct-ws-netdial":
+		d.NetDial = func(network, addr string) (net.Conn, error) { return hook(context.Background(), network, addr) }
+	default:
+		d.NetDialContext = hook
 	}
 	if proxyURL != nil {
 		d.Proxy = func(*http.Request) (*url.URL, error) { return proxyURL, nil }
@@ -165,7 +181,7 @@ func checkC16(c HSPath, o *Obs) error {
 	case "bad-ws-reply":
 		expectFail = true
 	case "proxy-refusal":
-		expectFail = c.Path == "http-proxy" || c.Path == "https-proxy"
+		expectFail = c.Path == "http-proxy" || c.Path == "https-proxy" || c.Path == "https-proxy-tlshook"
 	case "bad-cert":
 		spec, _, _ := c.peerSpec()
 		expectFail = spec.BackendTLS
@@ -201,7 +217,7 @@ func checkC16(c HSPath, o *Obs) error {
 	// wrapped in a TLS session made by the library: during a TLS handshake the
 	// library bounds the wait through the context (HandshakeContext), which is
 	// judged on the fake clock by the stall leg instead.
-	if base.limit > 0 && (c.Path == "direct-ws" || c.Path == "http-proxy" || c.Path == "socks5") {
+	if base.limit > 0 && (c.Path == "direct-ws" || c.Path == "direct-ws-netdial" || c.Path == "direct-wss-tlshook" || c.Path == "http-proxy" || c.Path == "https-proxy-tlshook" || c.Path == "socks5") {
 		latest := base.t1.Add(base.limit)
 		for i, op := range ops {
 			var armed time.Time
